@@ -164,7 +164,7 @@ class Report:
             out.write("HIST %s %d\n" % (k, self.hist[k]))
         for k in sorted(self.samples):
             for t in self.samples[k]:
-                out.write("SAMPLE %s %s\n" % (k, t))
+                out.write("SAMPLE %s %s\n" % (k.split(".")[0], t))   # "C19.1raise" -> C19 (ordering only)
         for e in self.errors:
             out.write("ERROR pyfront: %s\n" % e)
         for k, t in self.fails:
@@ -290,7 +290,7 @@ def worker_docs():
                 getattr(mod, name)()
                 n_ok += 1
                 proto.line("EVAL C06 1")
-                proto.line("HIST pyfront.docs.%s 1" % fname)
+                proto.line("HIST C06.py.docs.%s 1" % fname)
             except BaseException as e:
                 proto.line("EVAL C06 1")
                 tb = e.__traceback__
@@ -958,15 +958,15 @@ def worker_gen(seed, tier, out_path, start_group=0, only_id=None):
                     continue
                 if "probe" in c:
                     proto.line("EVAL C10 1")
-                    proto.line("HIST pyfront.py.probe.returned 1")
+                    proto.line("HIST C10.py.probe.returned 1")
                 for prop, ok, text in checks:
                     proto.line("EVAL %s 1" % prop)
                     if not ok:
                         proto.line("FAIL %s python front end [%s case %d %s]: %s case=%s"
                                    % (prop, g.tag, c["id"], case_label(c), one_line(text, 500), short_case(c)))
-                proto.line("HIST pyfront.py.coder.%s 1" % c["coder"])
+                proto.line("HIST C06.py.coder.%s 1" % c["coder"])
                 if c["model"] == "cat":
-                    proto.line("HIST pyfront.py.cat.style.%s 1" % c.get("style", "?"))
+                    proto.line("HIST C06.py.cat.table.%s 1" % c.get("style", "?"))
                 done.append(c)
                 out.write(case_json({k: v for k, v in c.items()
                                      if k not in ("style", "twin_of", "expect_words", "probe", "timeout")}) + "\n")
@@ -980,7 +980,7 @@ def worker_gen(seed, tier, out_path, start_group=0, only_id=None):
                 is_c05 = c["model"] == "cat"
                 prop = "C05" if is_c05 else "C06"
                 proto.line("EVAL %s 1" % prop)
-                proto.line("HIST pyfront.py.twin.%s 1" % ("lazy-vs-eager" if c["variant"] == "lazy" else "family-vs-concrete"))
+                proto.line("HIST %s.py.twin.%s 1" % (prop, "lazy-vs-eager" if c["variant"] == "lazy" else "family-vs-concrete"))
                 same = all(first.get(k) == c.get(k) for k in ("pywords", "pydecoded", "pyprefix", "pysuffix"))
                 if not same:
                     proto.line("FAIL %s python front end: %s and %s disagree on the same inputs [%s cases %d/%d]: words %s vs %s case=%s"
@@ -1035,7 +1035,7 @@ def campaign_diff(rep, seed, tier, only_id=None):
             rep.eval("C20")
             rep.fail("C20", "python front end: interpreter died (%s) on a valid case [seed=%d tier=%s case %s %s; %s] case=%s"
                      % (extra[-1], seed, tier, cid, label, replay, text))
-        rep.count("pyfront.py.%s" % status)
+        rep.count("%s.py.%s" % ("C10" if status == "hang" else "C20", status))
         start = int(groups[-1].split()[1]) + 1
         restarts += 1
         if only_id is not None:
@@ -1531,11 +1531,11 @@ def campaign_ctor(rep, seed, tier, only_idx=None):
             rep.fail("C19", "python %s => %s: %s %s" % (expr, outcome, detail, replay))
         elif outcome in ("panic", "panic-late"):
             rep.count("C19.py.panic")
-            rep.sample("C19", "python panic (a clean failure by C19's text; PYFRONT_PANIC=fail makes it a FAIL): %s => %s" % (expr, detail), cap=8)
+            rep.sample("C19.3panic", "python panic (a clean failure by C19's text; PYFRONT_PANIC=fail makes it a FAIL): %s => %s" % (expr, detail), cap=6)
         elif outcome == "raise":
-            rep.sample("C19.raise", "python %s => %s" % (expr, detail), cap=2)
+            rep.sample("C19.1raise", "python %s => %s" % (expr, detail), cap=1)
         else:
-            rep.sample("C19.ok", "python %s => %s" % (expr, detail), cap=2)
+            rep.sample("C19.2ok", "python %s => %s" % (expr, detail), cap=1)
     return results
 
 
@@ -1589,8 +1589,8 @@ def main(argv):
             t.join()
         for name, r, _ in parts:
             rep.merge(r)
-            rep.count("pyfront.seconds.%s" % name, int(round(secs.get(name, 0))))
-        rep.count("pyfront.seconds.total", int(round(time.time() - t0)))
+            rep.count("any.py.seconds.%s" % name, int(round(secs.get(name, 0))))
+        rep.count("any.py.seconds.total", int(round(time.time() - t0)))
     elif cmd == "case":
         path = campaign_diff(rep, seed, tier, only_id=int(argv[4]))
         sys.stdout.write("# case file: %s\n" % path)
